@@ -93,8 +93,31 @@ class Q:
     def __ge__(self, other):
         return Truth(self.v >= other.v)
 
+    def __eq__(self, other):
+        # element-wise like a numpy array: against anything that is not a Q the answer has no truth value
+        if isinstance(other, Q):
+            return Truth(self.v == other.v)
+        return Ambiguous()
+
+    def __ne__(self, other):
+        if isinstance(other, Q):
+            return Truth(self.v != other.v)
+        return Ambiguous()
+
+    __hash__ = None
+
     def __repr__(self):
         return "Q(%r)" % self.v
+
+
+class Ambiguous:
+    """What an array-like returns for == against a foreign object: using it as a truth value is an error."""
+
+    def __bool__(self):
+        raise ValueError("The truth value of an element-wise comparison is ambiguous")
+
+    def __repr__(self):
+        return "Ambiguous()"
 
 
 def mkq(v):
